@@ -249,6 +249,10 @@ def execute(trace, ctx=None):
             out[i] = float(v)
         if list(r.index) != sorted(r.index):
             raise Violation('read-shape', 'bi_read result is not sorted by observation date', state['step'])
+        try:
+            r.iloc[:] = -12345.0          # the answer is the reader's to scribble on; store and later reads must not notice
+        except Exception:
+            pass
         return out
 
     def check_read(T, what, tag):
